@@ -4,20 +4,24 @@
 import Echse.Lemmas.Ical16
 namespace Echse.Ical
 
+/-- the verb `echs_evical_last_pull` hands back: `L` for a task, `LU` for a cancel, `LR` for a reply -/
+def lastVerb (v : String) : String := if v == "S" then "L" else "L" ++ v
+
 /-- what `feed` makes of the last pull -/
 def lastRes (x : Parser × PullRes) (ins : List Instr) : List Instr × List (List Byte) :=
   match x.2 with
-  | .ve ls => (if verbOf x.1.comp.meth ls == "S" then ins ++ [{ verb := "L", lines := ls }] else ins, x.1.log)
+  | .ve ls => (ins ++ [{ verb := lastVerb (verbOf x.1.comp.meth ls), lines := ls }], x.1.log)
   | _ => (ins, x.1.log)
 
-/-- the same from the automaton: a pending last line is complete -/
+/-- the same from the automaton: a pending last line is complete; an event it completes is handed back unless
+its METHOD gives no verb (`echs_evical_pull` passes those over) -/
 def finish (A : Abs) (ins : List Instr) : List Instr × List (List Byte) :=
   if A.sc.pend = true ∧ A.cur ≠ [] then
     (match (procLine A.comp A.cur).2 with
       | .ve =>
-        if verbOf (procLine A.comp A.cur).1.meth (procLine A.comp A.cur).1.cur == "S" then
-          ins ++ [{ verb := "L", lines := (procLine A.comp A.cur).1.cur }]
-        else ins
+        if verbOf (procLine A.comp A.cur).1.meth (procLine A.comp A.cur).1.cur == "X" then ins
+        else ins ++ [{ verb := lastVerb (verbOf (procLine A.comp A.cur).1.meth (procLine A.comp A.cur).1.cur),
+                       lines := (procLine A.comp A.cur).1.cur }]
       | _ => ins,
      A.log ++ [A.cur.takeWhile (· ≠ 0)])
   else (ins, A.log)
@@ -61,23 +65,23 @@ theorem x_not_s (v : String) (h : (v == "X") = true) : (v == "S") = false := by
   have : v = "X" := by simpa using h
   subst this; decide
 
+theorem post_noline (q : Parser) (A : Abs) (hpost : Post q A) : NoLine (rest q) := by
+  rw [hpost.done]; exact noLine_nil
+
+/-- behind a used-up buffer the pre-examination of the mark reads 0: no fold -/
+theorem post_not_fold (q : Parser) (A : Abs) (hpost : Post q A) : ¬ Fold (bpOf q) := by
+  rw [bpOf_eq, hpost.done]; decide
+
 /-- the last pull -/
-theorem last_spec (q : Parser) (A : Abs) (hpost : Post q A) (hnl : NoLine (rest q))
-    (hlast : A.sc.pend = true → A.sc.empty = false → A.sc.sp = false) (ins : List Instr) :
+theorem last_spec (q : Parser) (A : Abs) (hpost : Post q A) (ins : List Instr) :
     lastRes (pullEv (q.buf.length + 2) q) ins = finish A ins := by
+  have hnl := post_noline q A hpost
+  have hnf := post_not_fold q A hpost
   by_cases hm : Marked q
   · have hpend : A.sc.pend = true := hpost.rel.mark.1 hm
     by_cases hs : q.stash.length ≠ 0
     · have hcur : A.cur ≠ [] := by
         rw [← hpost.rel.stash]; intro hx; rw [hx] at hs; exact hs rfl
-      have hemp : A.sc.empty = false := by
-        cases he : A.sc.empty with
-        | false => rfl
-        | true => exact absurd (hpost.inv.1.1 he) hcur
-      have hsp := hlast hpend hemp
-      have hnf : ¬ Fold (bpOf q) := by
-        rw [fold_iff, bpOf_eq]; intro hf
-        have := hpost.sp hf; rw [hsp] at this; cases this
       have hround := round_marked q ⟨hm, hnf⟩ hs
       have hq1 : ¬ Marked (doProc (unmark q)).1 := not_marked_of_eolp _ rfl
       have hq2 : ¬ Marked (resetMeth (doProc (unmark q)).1) := not_marked_of_eolp _ rfl
@@ -110,17 +114,16 @@ theorem last_spec (q : Parser) (A : Abs) (hpost : Post q A) (hnl : NoLine (rest 
         · rename_i hx
           rw [lastRes_need _ _ hn1.1, hn1.2, hlog]
           rw [hcomp] at hx
-          rw [x_not_s _ hx]; simp
-        · unfold lastRes
+          rw [if_pos hx]
+        · rename_i hx
+          rw [hcomp] at hx
+          rw [if_neg hx]
+          unfold lastRes
           dsimp only
           rw [hcomp, hlog]
     · -- the input ends in an empty line: the mark comes off, nothing is processed
       have hcur : A.cur = [] := by
         rw [← hpost.rel.stash]; exact List.eq_nil_of_length_eq_zero (by omega)
-      have hemp : A.sc.empty = true := hpost.inv.1.2 hcur
-      have hnf : ¬ Fold (bpOf q) := by
-        rw [fold_iff, bpOf_eq]; intro hf
-        have := hpost.inv.2.2 (hpost.sp hf); rw [hemp] at this; cases this
       have hround := round_marked_empty q ⟨hm, hnf⟩ hs
       have hq1 : ¬ Marked (unmark q) := not_marked_of_eolp _ rfl
       have hn := pullEv_noline (q.buf.length + 2) (unmark q) (mu_lt_fuel (unmark q)) hq1 hnl
